@@ -4,6 +4,9 @@ package http3
 // unidirectional-stream byte strings itself: every byte split of a 3-frame request, a
 // stream reset / STOP_SENDING / connection close at every frame boundary, unknown and
 // forbidden frame and stream types.
+// Content-Length: besides exact / +5 / -5, every value list of c18CLValues is written verbatim
+// in front of one DATA frame (both raw parts); the Content-Length clause is judged against the
+// value the peer SENT (c18CLJudge).
 
 import (
 	"bytes"
@@ -11,6 +14,7 @@ import (
 	"errors"
 	"fmt"
 	"io"
+	"math/big"
 	"net/http"
 	"strconv"
 	"strings"
@@ -56,6 +60,108 @@ func c18ReqHeadersFrame(idx int, cl int) c18Frame {
 	return c18Frame{T: 0x1, P: c18QpackBlock(fields)}
 }
 
+// c18ReqHeadersFrameV: the content-length field(s) are written with exactly the given values, in
+// order (one field line per value); nil: no content-length field.
+func c18ReqHeadersFrameV(idx int, cl []string) c18Frame {
+	fields := [][2]string{{":method", "POST"}, {":scheme", "https"}, {":authority", "server.verif"}, {":path", "/"}, {"x-idx", strconv.Itoa(idx)}, {"x-one", fmt.Sprintf("v1-q%d", idx)}}
+	for _, v := range cl {
+		fields = append(fields, [2]string{"content-length", v})
+	}
+	return c18Frame{T: 0x1, P: c18QpackBlock(fields)}
+}
+
+// c18CLValues is the alphabet of Content-Length field values a scripted peer declares (both
+// directions) in front of ONE 20-byte DATA frame: around the boundaries of the representation
+// (http.Request.ContentLength / http.Response.ContentLength are int64, the parser is
+// strconv.ParseUint(.., 10, 63)), values that are congruent to the real body length modulo 2^32 /
+// 2^64, zero, leading zeros, signs, the empty value, a list value, repeated fields.
+var c18CLValues = []struct {
+	Name string
+	Vals []string
+}{
+	{"020", []string{"020"}},
+	{"0", []string{"0"}},
+	{"2^32+20", []string{"4294967316"}},
+	{"2^63-1", []string{"9223372036854775807"}},
+	{"2^63", []string{"9223372036854775808"}},
+	{"2^63+20", []string{"9223372036854775828"}},
+	{"2^64-1", []string{"18446744073709551615"}},
+	{"2^64", []string{"18446744073709551616"}},
+	{"2^64+20", []string{"18446744073709551636"}},
+	{"+20", []string{"+20"}},
+	{"-1", []string{"-1"}},
+	{"empty", []string{""}},
+	{"20,20", []string{"20, 20"}},
+	{"20|20", []string{"20", "20"}},
+	{"20|25", []string{"20", "25"}},
+}
+
+func c18CLNames() []string {
+	var out []string
+	for _, v := range c18CLValues {
+		out = append(out, v.Name)
+	}
+	return out
+}
+
+// c18CLScripts: one script "Hcl=<name>,D,U" per value of c18CLValues.
+func c18CLScripts() []c18Script {
+	var out []c18Script
+	for _, v := range c18CLValues {
+		out = append(out, c18Script{Name: "Hcl=" + v.Name + ",D,U", Frames: "vDU", CL: v.Vals})
+	}
+	return out
+}
+
+// c18CLNumber is the number a list of content-length field values declares: ok only when every
+// value is the same non-empty string of ASCII digits (RFC 9110, 8.6: Content-Length = 1*DIGIT).
+// Everything else is outside what the property statement talks about ("its declared
+// Content-Length") and is recorded, not judged.
+func c18CLNumber(vals []string) (*big.Int, bool) {
+	if len(vals) == 0 {
+		return nil, false
+	}
+	for _, v := range vals {
+		if v != vals[0] || v == "" {
+			return nil, false
+		}
+		for i := 0; i < len(v); i++ {
+			if v[i] < '0' || v[i] > '9' {
+				return nil, false
+			}
+		}
+	}
+	n, ok := new(big.Int).SetString(vals[0], 10)
+	return n, ok
+}
+
+// c18CLJudge is the Content-Length clause of the statement, judged against what the peer SENT
+// (sent: the content-length field values of its HEADERS frame): a body that disagrees with its
+// declared Content-Length is reported as an error rather than silently truncated or extended, and
+// the receiver sees the field the peer sent. dir: "request" / "response"; got: body bytes read;
+// done: the body was read to its end (io.EOF or error); rdErr: nil = plain io.EOF; seenHdr /
+// seenCL: the Content-Length header values and the ContentLength field the receiver was handed.
+func c18CLJudge(x *c18Exec, dir, script, tag string, sent []string, got int, done bool, rdErr error, seenHdr []string, seenCL int64) {
+	n, ok := c18CLNumber(sent)
+	if !ok {
+		return
+	}
+	if done {
+		if big.NewInt(int64(got)).Cmp(n) > 0 {
+			x.fail("long-body-silent:"+dir+":sent:"+script, "%s: %d body bytes were read although the peer declared Content-Length %s", tag, got, sent[0])
+		} else if rdErr == nil && big.NewInt(int64(got)).Cmp(n) < 0 {
+			x.fail("short-body-silent-eof:"+dir+":sent:"+script, "%s: the body ended in plain io.EOF after %d bytes although the peer declared Content-Length %s (silent truncation; the receiver was handed ContentLength %d, header %q)", tag, got, sent[0], seenCL, seenHdr)
+		}
+	}
+	if len(sent) == 1 {
+		if len(seenHdr) != 1 || seenHdr[0] != sent[0] {
+			x.fail("content-length-altered:"+dir+":"+script, "%s: the peer sent content-length %q, the receiver was handed the header values %q", tag, sent[0], seenHdr)
+		} else if !n.IsInt64() || n.Int64() != seenCL {
+			x.fail("content-length-altered:"+dir+":"+script, "%s: the peer sent content-length %s, the receiver was handed ContentLength %d", tag, sent[0], seenCL)
+		}
+	}
+}
+
 const (
 	c18UnknownType = 0x5f // 0x1f*2 + 0x21: reserved-for-greasing frame / stream type, 2-byte varint
 )
@@ -63,9 +169,12 @@ const (
 type c18Script struct {
 	Name string
 	// request-stream scripts: frame letters: H headers, h headers with correct content-length,
-	// + headers with content-length 5 too large, - 5 too small, D data (20 bytes), U unknown
-	// type, T trailers (undeclared), S settings, 2 6 8 9 reserved HTTP/2 types.
+	// + headers with content-length 5 too large, - 5 too small, v headers with the content-length
+	// field values CL, D data (20 bytes), U unknown type, T trailers (undeclared), S settings,
+	// 2 6 8 9 reserved HTTP/2 types.
 	Frames string
+	// CL: the content-length field values of the 'v' HEADERS frame, written verbatim
+	CL []string
 	// unidirectional scripts: streams to open in order (byte strings); the last one is the
 	// one that is split
 	Uni [][]byte
@@ -119,8 +228,13 @@ var c18Scripts = []c18Script{
 	{Name: "uni-control-reserved-first", NoCtrl: true, Uni: [][]byte{append([]byte{0x0}, c18Frame{T: 0x2}.bytes()...)}, ConnErr: uint64(ErrCodeFrameUnexpected)},
 }
 
+// c18AllScripts: the fixed scripts, then the Content-Length value scripts.
+func c18AllScripts() []c18Script {
+	return append(append([]c18Script{}, c18Scripts...), c18CLScripts()...)
+}
+
 func c18ScriptByName(name string) (c18Script, bool) {
-	for _, s := range c18Scripts {
+	for _, s := range c18AllScripts() {
 		if s.Name == name {
 			return s, true
 		}
@@ -133,10 +247,22 @@ type c18RawModel struct {
 	frames  []c18Frame
 	body    []byte      // what the handler must read
 	trailer http.Header // what the handler must find in Request.Trailer
-	cl      int         // declared content-length or -1
+	cl      int         // declared content-length or -1 (letters h + -)
+	clSent  []string    // the content-length field values of the HEADERS frame as written (nil: none)
 }
 
-func c18BuildFrames(letters string, idx int) c18RawModel {
+// agrees: the message declares no Content-Length, or one that equals the body it carries.
+func (m c18RawModel) agrees() bool { return c18CLAgrees(m.clSent, len(m.body)) }
+
+func c18CLAgrees(sent []string, body int) bool {
+	if sent == nil {
+		return true
+	}
+	n, ok := c18CLNumber(sent)
+	return ok && len(sent) == 1 && n.IsInt64() && n.Int64() == int64(body)
+}
+
+func c18BuildFrames(letters string, idx int, cl ...string) c18RawModel {
 	var m c18RawModel
 	m.cl = -1
 	nData := strings.Count(letters, "D")
@@ -148,13 +274,19 @@ func c18BuildFrames(letters string, idx int) c18RawModel {
 			m.frames = append(m.frames, c18ReqHeadersFrame(idx, -1))
 		case 'h':
 			m.cl = nData * c18RawChunk
+			m.clSent = []string{strconv.Itoa(m.cl)}
 			m.frames = append(m.frames, c18ReqHeadersFrame(idx, m.cl))
 		case '+':
 			m.cl = nData*c18RawChunk + 5
+			m.clSent = []string{strconv.Itoa(m.cl)}
 			m.frames = append(m.frames, c18ReqHeadersFrame(idx, m.cl))
 		case '-':
 			m.cl = nData*c18RawChunk - 5
+			m.clSent = []string{strconv.Itoa(m.cl)}
 			m.frames = append(m.frames, c18ReqHeadersFrame(idx, m.cl))
+		case 'v':
+			m.clSent = append([]string{}, cl...)
+			m.frames = append(m.frames, c18ReqHeadersFrameV(idx, cl))
 		case 'D':
 			m.frames = append(m.frames, c18Frame{T: 0x0, P: all[di*c18RawChunk : (di+1)*c18RawChunk]})
 			di++
@@ -522,7 +654,8 @@ func c18RawPeer(ctx context.Context, x *c18Exec, conn *quic.Conn, sc c18Script, 
 	}
 
 	// ---- request-stream scripts
-	m := c18BuildFrames(sc.Frames, 0)
+	m := c18BuildFrames(sc.Frames, 0, sc.CL...)
+	_, clJudged := c18CLNumber(m.clSent) // false: no field, or field values the statement does not talk about
 	str, err := conn.OpenStreamSync(ctx)
 	if err != nil {
 		x.fail("raw-open-stream", "%v", err)
@@ -595,7 +728,7 @@ func c18RawPeer(ctx context.Context, x *c18Exec, conn *quic.Conn, sc c18Script, 
 	}
 	if c.Cut < 0 {
 		// a complete, permitted message
-		if m.cl < 0 || m.cl == len(m.body) {
+		if m.agrees() {
 			c18RawCheckResponse(x, 0, data, rerr, "raw-exchange:"+sc.Name+":", tag)
 			c18RawCheckHandler(x, 0, m, "raw-exchange:"+sc.Name+":", tag)
 		}
@@ -606,7 +739,7 @@ func c18RawPeer(ctx context.Context, x *c18Exec, conn *quic.Conn, sc c18Script, 
 		if so.calls > 0 && !bytes.HasPrefix(m.body, so.body) {
 			x.fail("raw-abort:request-body-altered", "%s: the %d bytes the handler read are not a prefix of what the peer sent", tag, len(so.body))
 		}
-		if c.Act == 2 && (m.cl < 0 || m.cl == len(m.body)) {
+		if c.Act == 2 && m.agrees() {
 			// STOP_SENDING only concerns the response direction: the request is complete
 			c18RawCheckHandler(x, 0, m, "raw-abort:stop-sending:", tag)
 		}
@@ -621,6 +754,32 @@ func c18RawPeer(ctx context.Context, x *c18Exec, conn *quic.Conn, sc c18Script, 
 			x.fail("long-body-silent:request", "%s: handler read %d body bytes although the request declared Content-Length %d", tag, len(so.body), so.declaredCL)
 		} else if so.bodyErr == nil && int64(len(so.body)) < so.declaredCL {
 			x.fail("short-body-silent-eof:request", "%s: handler's Request.Body ended in plain io.EOF after %d bytes although the request declared Content-Length %d (silent truncation)", tag, len(so.body), so.declaredCL)
+		}
+	}
+	// ... and against what the peer sent (the handler may have been handed something else)
+	if so.calls > 0 && m.clSent != nil {
+		c18CLJudge(x, "request", sc.Name, tag, m.clSent, len(so.body), so.bodyDone, so.bodyErr, so.header["Content-Length"], so.contentLength)
+	}
+	if sc.CL != nil && c.Cut < 0 {
+		// what the server did with the declared value (outcome class)
+		switch {
+		case so.calls == 0 && rerr != nil:
+			note("cl:rejected:%s", c18ErrClass(rerr))
+		case so.calls == 0:
+			note("cl:answered-without-handler:%s", c18ParseResponse(data).status)
+		default:
+			note("cl:handler[cl=%d hdr=%q]", so.contentLength, so.header["Content-Length"])
+		}
+	}
+	if m.clSent != nil && !clJudged {
+		// a content-length field that is not a number (or repeated): whatever the server does with
+		// the message is recorded; what a handler read must still be what the peer sent
+		if so.calls > 0 && !bytes.HasPrefix(m.body, so.body) {
+			x.fail("raw-exchange:"+sc.Name+":request-body-altered", "%s: the %d bytes the handler read are not a prefix of what the peer sent", tag, len(so.body))
+		}
+		if closed, _, code, _ := c18ConnErr(conn, 0); closed {
+			note("cl-observed:conn-closed:%#x", code)
+			return
 		}
 	}
 	// the connection must still carry requests (stream-level events only)
@@ -640,12 +799,12 @@ func c18RawCases(e explore.Env) ([]c18RawCase, string) {
 	if e.Thorough() {
 		bigs = []int{0, 1}
 	}
-	for _, sc := range c18Scripts {
+	for _, sc := range c18AllScripts() {
 		n := 0
 		if sc.Uni != nil {
 			n = len(sc.Uni[len(sc.Uni)-1])
 		} else {
-			for _, f := range c18BuildFrames(sc.Frames, 0).frames {
+			for _, f := range c18BuildFrames(sc.Frames, 0, sc.CL...).frames {
 				n += len(f.bytes())
 			}
 		}
@@ -669,7 +828,7 @@ func c18RawCases(e explore.Env) ([]c18RawCase, string) {
 		}
 	}
 	// aborts at every frame boundary of the permitted request scripts
-	for _, sc := range c18Scripts {
+	for _, sc := range c18AllScripts() {
 		if sc.Uni != nil || sc.ConnErr != 0 || sc.Observe {
 			continue
 		}
@@ -678,6 +837,9 @@ func c18RawCases(e explore.Env) ([]c18RawCase, string) {
 			for act := 1; act <= 4; act++ {
 				for sl := 0; sl <= 1; sl++ {
 					for tr := 0; tr <= 3; tr++ {
+						if sc.CL != nil && tr > 0 && !e.Thorough() {
+							continue
+						}
 						for _, big := range bigs {
 							cases = append(cases, c18RawCase{Script: sc.Name, Split: -1, Cut: cut, Act: act, SLog: sl, Tr: tr, Big: big, Seed: seed})
 						}
@@ -686,5 +848,5 @@ func c18RawCases(e explore.Env) ([]c18RawCase, string) {
 			}
 		}
 	}
-	return cases, fmt.Sprintf("scripted raw QUIC peer: %d scripts (request streams of 3 frames from {HEADERS, DATA, unknown type %#x, trailers, SETTINGS, reserved 0x2/0x6/0x8/0x9, Content-Length exact / +5 / -5}; unidirectional streams: unknown types, duplicate control / QPACK streams, push stream, malformed control streams), each written in one piece and split into two writes at every byte offset; for the permitted request scripts additionally CancelWrite / CancelRead / both / connection close at every frame boundary x Server.Logger {nil,set} x handler trailers {none, declared, undeclared, declared+forbidden name}", len(c18Scripts), c18UnknownType)
+	return cases, fmt.Sprintf("scripted raw QUIC peer: %d scripts (request streams of 3 frames from {HEADERS, DATA, unknown type %#x, trailers, SETTINGS, reserved 0x2/0x6/0x8/0x9, Content-Length exact / +5 / -5, or one of the %d content-length field value lists %v written verbatim in front of one 20-byte DATA frame}; unidirectional streams: unknown types, duplicate control / QPACK streams, push stream, malformed control streams), each written in one piece and split into two writes at every byte offset; for the permitted request scripts additionally CancelWrite / CancelRead / both / connection close at every frame boundary x Server.Logger {nil,set} x handler trailers {none, declared, undeclared, declared+forbidden name} (quick: no handler trailers for the content-length value scripts); the Content-Length clause is judged against the value the peer SENT whenever every content-length field value is the same 1*DIGIT string, other values are recorded only", len(c18AllScripts()), c18UnknownType, len(c18CLValues), c18CLNames())
 }
